@@ -32,6 +32,18 @@ def main(argv=None):
         return 1 if out.get("confirmed") else 0
     spec = mod.build(a.tier)
     targets = spec.pop("targets")
+    if a.tier == "thorough":
+        # deeper exploration of the same obligations: larger solver budgets (fewer undecided under
+        # load), one more unrolling of every bounded target, all flag counts of the flags lemma
+        for t in targets:
+            if hasattr(t, "oblig_timeout_ms"):
+                t.oblig_timeout_ms = int(t.oblig_timeout_ms * 3)
+            if hasattr(t, "timeout"):
+                t.timeout = int(t.timeout * 3)
+            if getattr(t, "unroll", None):
+                t.unroll += 1
+                if getattr(t, "bounded", None):
+                    t.bounded += " (+1 in the thorough tier)"
     return check_property(a.prop, targets, tier=a.tier, only=a.only, **spec)
 
 
